@@ -41,6 +41,8 @@ def project_sched(log):
         out.append(s)
 
     mig_target = {}
+    in_cb = {}           # tid -> the context-switch callback of `switching[tid]` is running on this OS thread
+    cb38 = {}            # tid -> [prev, next, counter touched] while ABTI_ythread_callback_resume_suspend_to runs
 
     def pend(p):
         # decrements already done in memory whose owner is only known at the resume event that follows (direct hand-off
@@ -59,6 +61,9 @@ def project_sched(log):
         if t == "E":
             k = ev["kind"]
             tid = ev["tid"]
+            if k in (1, 2, 3, 4, 6, 7, 8, 9):
+                in_cb[tid] = False
+                cb38.pop(tid, None)
             if k == 1 or k == 4:
                 u, p = uid(ev["p1"]), pid(ev["p2"])
                 if u is not None and p is not None:
@@ -88,6 +93,10 @@ def project_sched(log):
             elif k in CB_KIND:
                 u = switching.get(tid)
                 last_cb[tid] = k
+                in_cb[tid] = True
+                if k == 38:
+                    nxt = resumed_on.get(tid)
+                    cb38[tid] = [u, nxt if isinstance(nxt, int) else None, False]
                 if u is not None:
                     emit("cb %d %d %s" % (tid, u, CB_KIND[k]))
             elif k == 10:
@@ -115,6 +124,11 @@ def project_sched(log):
             op = ev["op"]
             u = uid(name)
             if u is not None and off == o_state and op == "store":
+                c = cb38.get(ev["tid"])
+                if c and ev["a"] == 2 and c[0] == u and c[1] is not None and not c[2] and c[1] in known and u in known:
+                    # resume_suspend_to inside one pool: no counter update, the resumed unit's count passes to the caller
+                    emit("xferB %d %d" % (c[1], u))
+                    resumed_on.pop(ev["tid"], None)
                 emit("setSt %d %d" % (u, ev["a"]))
             elif u is not None and off == o_req and op == "for" and ev["a"] in REQ:
                 emit("reqSet %d %s" % (u, REQ[ev["a"]]))
@@ -133,8 +147,11 @@ def project_sched(log):
                 tid = ev["tid"]
                 if op == "fadd":
                     u = uid(ev["unit"])          # user code of a unit itself (ABT_thread_yield_to credit) ...
-                    if u is None or u not in known:
-                        u = switching.get(tid)   # ... or the scheduler context finishing a unit's suspension
+                    if u is None or u not in known or in_cb.get(tid):
+                        u = switching.get(tid)   # ... or the callback finishing a unit's suspension (on the scheduler's
+                                                 # context, or on the context of the unit a directed switch went to)
+                    if tid in cb38:
+                        cb38[tid][2] = True
                     if u is not None and u in known:
                         emit("checkNb %d %d" % (p, t3_s32(ev["cur"]) - extra.get(p, 0) + pend(p)))
                         emit("incB %d %d" % (u, p))
@@ -154,6 +171,9 @@ def project_sched(log):
         elif t == "S":
             txt = ev["txt"]
             u = uid(ev["unit"])
+            if txt[0] in ("step", "userStart", "userEnd", "apiCall", "apiRet"):
+                in_cb[ev["tid"]] = False
+                cb38.pop(ev["tid"], None)
             if txt[0] == "migReq" and u is not None and len(txt) >= 3 and pid(txt[2]) is not None:
                 mig_target[u] = pid(txt[2])
             elif txt[0] == "userStart" and u is not None:
